@@ -50,4 +50,29 @@ func (b *badgerDB) read(key string) (string, error) {
 	return out, err
 }
 
+// readRaw returns the string entry stored under key and whether the key exists.
+func (b *badgerDB) readRaw(key string) (string, bool, error) {
+	var out string
+	found := false
+	err := b.db.View(func(txn *badger.Txn) error {
+		item, err := txn.Get([]byte(key))
+		if err == badger.ErrKeyNotFound {
+			return nil
+		}
+		if err != nil {
+			return err
+		}
+		found = true
+		return item.Value(func(val []byte) error {
+			var v tla.Value
+			if err := gob.NewDecoder(bytes.NewBuffer(val)).Decode(&v); err != nil {
+				return err
+			}
+			out = strOf(v)
+			return nil
+		})
+	})
+	return out, found, err
+}
+
 func (b *badgerDB) close() {}
